@@ -15,6 +15,8 @@ pub struct MultiSet {
     pub queries: Vec<String>,
     pub limits: Option<Vec<usize>>, // None: 0..|store|+2
     pub distinct_ratings: bool,
+    /// ratings moved to the top of the usize range (distinct, straddling 2^63)
+    pub huge_ratings: bool,
     pub block: u64,
 }
 
@@ -25,7 +27,10 @@ pub fn store_at(set: &MultiSet, idx: u64) -> Vec<Rec> {
     seq_at(set.menu.len() as u64, set.lo, set.hi, idx)
         .into_iter()
         .enumerate()
-        .map(|(i, t)| rec(100 + i, &set.menu[t], if set.distinct_ratings { RATINGS[i % 12] } else { [7, 7, 3, 7, 3][i % 5] }))
+        .map(|(i, t)| {
+            let r = if set.distinct_ratings { RATINGS[i % 12] } else { [7, 7, 3, 7, 3][i % 5] };
+            rec(100 + i, &set.menu[t], if set.huge_ratings { (1usize << 63) - 60 + r } else { r })
+        })
         .collect()
 }
 
@@ -46,48 +51,131 @@ pub fn multi_sets(tier: Tier) -> Vec<MultiSet> {
             menu.push(format!("{1}{0}{1}{0}", s.v, s.c));
         }
         if full {
-            sets.push(MultiSet { l, name: format!("stores<=3 over {} F1 titles", menu.len()), menu, lo: 0, hi: 3, queries: all_strings(&f1, 0, 3), limits: None, distinct_ratings: true, block: 30 });
+            sets.push(MultiSet { l, name: format!("stores<=3 over {} F1 titles", menu.len()), menu, lo: 0, hi: 3, queries: all_strings(&f1, 0, 3), limits: None, distinct_ratings: true, huge_ratings: false, block: 30 });
         }
         // word-level menu: 12 titles
         let lex = lex_strings(l);
         let mut wmenu: Vec<String> = lex.clone();
         wmenu.push(format!("{} {}", lex[0], lex[4]));
         wmenu.push(format!("{}-{}", lex[7], lex[8]));
-        sets.push(MultiSet { l, name: "stores<=3 over 12 lexicon titles".into(), menu: wmenu.clone(), lo: 0, hi: 3, queries: word_queries(&lex, if full { 2 } else { 1 }), limits: None, distinct_ratings: true, block: 20 });
+        sets.push(MultiSet { l, name: "stores<=3 over 12 lexicon titles".into(), menu: wmenu.clone(), lo: 0, hi: 3, queries: word_queries(&lex, if full { 2 } else { 1 }), limits: None, distinct_ratings: true, huge_ratings: false, block: 20 });
         // (ii) top-k machinery: 4, 5, 11, 12 records over a 3-title menu, small limits
         let tk: Vec<String> = vec![format!("{0}{1}", s.v, s.c), format!("{0}{1}{0}", s.v, s.c), format!("{1}{0} {0}{1}", s.v, s.c)];
         let tq: Vec<String> = vec![s.v.to_string(), format!("{0}{1}", s.v, s.c), format!("{0}{1}{0}", s.v, s.c), format!("{1}{0}", s.v, s.c), format!("{0}{1}{1}", s.v, s.c)];
         if full {
-            sets.push(MultiSet { l, name: "top-k: stores 4..5 over 3 titles".into(), menu: tk.clone(), lo: 4, hi: 5, queries: tq.clone(), limits: Some(vec![0, 1, 2, 3]), distinct_ratings: true, block: 60 });
+            sets.push(MultiSet { l, name: "top-k: stores 4..5 over 3 titles".into(), menu: tk.clone(), lo: 4, hi: 5, queries: tq.clone(), limits: Some(vec![0, 1, 2, 3]), distinct_ratings: true, huge_ratings: false, block: 60 });
             let (lo, hi) = tier.pick((8, 8), (11, 12));
             let m = if tier == Tier::Thorough { tk.clone() } else { tk.clone() };
-            sets.push(MultiSet { l, name: format!("top-k: stores {}..{} over 3 titles", lo, hi), menu: m, lo, hi, queries: tq.clone(), limits: Some(vec![0, 1, 2, 3]), distinct_ratings: true, block: 300 });
+            sets.push(MultiSet { l, name: format!("top-k: stores {}..{} over 3 titles", lo, hi), menu: m, lo, hi, queries: tq.clone(), limits: Some(vec![0, 1, 2, 3]), distinct_ratings: true, huge_ratings: false, block: 300 });
             if tier == Tier::Quick {
                 // the candidate cap (10 x limit) needs > 10 records: 11..12 over a 2-title menu
-                sets.push(MultiSet { l, name: "top-k: stores 11..12 over 2 titles".into(), menu: tk[..2].to_vec(), lo: 11, hi: 12, queries: tq.clone(), limits: Some(vec![0, 1, 2, 3]), distinct_ratings: true, block: 300 });
+                sets.push(MultiSet { l, name: "top-k: stores 11..12 over 2 titles".into(), menu: tk[..2].to_vec(), lo: 11, hi: 12, queries: tq.clone(), limits: Some(vec![0, 1, 2, 3]), distinct_ratings: true, huge_ratings: false, block: 300 });
             }
         }
         // (iii) equal ratings and duplicate titles: order-free clauses only
-        sets.push(MultiSet { l, name: "ties: stores<=4 over 4 titles, equal ratings".into(), menu: vec![tk[0].clone(), tk[1].clone(), tk[0].to_uppercase(), format!("{} {}", tk[1], tk[0])], lo: 0, hi: 4, queries: tq, limits: None, distinct_ratings: false, block: 40 });
+        sets.push(MultiSet { l, name: "ties: stores<=4 over 4 titles, equal ratings".into(), menu: vec![tk[0].clone(), tk[1].clone(), tk[0].to_uppercase(), format!("{} {}", tk[1], tk[0])], lo: 0, hi: 4, queries: tq, limits: None, distinct_ratings: false, huge_ratings: false, block: 40 });
     }
     sets
 }
 
 pub struct C06 {
     sets: Vec<MultiSet>,
+    /// (language, number of records): stores of about a hundred records, limits around |store|/10
+    big: Vec<(L, usize)>,
 }
 
 impl C06 {
     pub fn new(tier: Tier) -> C06 {
-        C06 { sets: multi_sets(tier) }
+        let mut big = Vec::new();
+        for l in tier.pick(vec![L::None, L::En], LANGS.to_vec()) {
+            for n in [99usize, 101, 121, 150] {
+                big.push((l, n));
+            }
+        }
+        C06 { sets: multi_sets(tier), big }
+    }
+
+    /// A store of n records that all share grams with the queries ("mug 17", "metal mug 5", ...), limits from 9 to n:
+    /// the same clauses as the small stores.
+    fn run_big(&self, l: L, n: usize, cx: &mut Cx) {
+        let (w1, w2) = if l.is_cyrillic() { ("кружка", "металл") } else { ("mug", "metal") };
+        let recs: Vec<Rec> = (0..n).map(|i| rec(1000 + i, &match i % 3 { 0 => format!("{} {}", w1, i), 1 => format!("{} {} {}", w2, w1, i), _ => format!("{}{}", w1, i) }, (i * 7919) % 1009 + i * 1013)).collect();
+        let queries: Vec<String> = vec![w1.chars().take(1).collect(), w1.to_string(), format!("{} {}", w2, w1), format!("{} 1", w1), String::new()];
+        let limits: Vec<usize> = vec![9, 10, 11, 12, n / 10, n / 10 + 1, n, n + 2];
+        let Ok(mut full) = cx.build(l, &recs, Some(n + 2), None) else { return };
+        let mut singles: Vec<St> = Vec::new();
+        for r in &recs {
+            match cx.build(l, std::slice::from_ref(r), None, None) {
+                Ok(s) => singles.push(s),
+                Err(_) => return,
+            }
+        }
+        cx.state();
+        for q in &queries {
+            let mut alone: Vec<Option<String>> = Vec::with_capacity(n);
+            for (i, s) in singles.iter_mut().enumerate() {
+                match cx.search(s, q) {
+                    Ok(h) => alone.push(h.into_iter().find(|x| x.0 == recs[i].0).map(|x| x.1)),
+                    Err(_) => return,
+                }
+            }
+            let Ok(unlimited) = cx.search(&mut full, q) else { return };
+            cx.eval();
+            cx.validated();
+            for (i, a) in alone.iter().enumerate() {
+                if a.is_some() && !unlimited.iter().any(|h| h.0 == recs[i].0) {
+                    cx.fail("C06:hit-on-its-own-missing-from-unlimited-list", || json!({"lang": l.tag(), "store": format!("{} records '{} i' / '{} {} i' / '{}i'", n, w1, w2, w1, w1), "limit": n + 2, "query": q, "missing_record": recs[i], "listed": unlimited.len()}));
+                    break;
+                }
+            }
+            for &k in &limits {
+                let Ok(mut st) = cx.build(l, &recs, Some(k), None) else { return };
+                cx.eval();
+                let Ok(hits) = cx.search(&mut st, q) else { return };
+                cx.validated();
+                let mut ids = ids(&hits);
+                ids.sort();
+                ids.dedup();
+                if hits.len() > k || ids.len() != hits.len() {
+                    cx.fail("C06:more-hits-than-limit", || json!({"lang": l.tag(), "records": n, "limit": k, "query": q, "observed": hits.len()}));
+                }
+                for (id, title) in &hits {
+                    let i = id - 1000;
+                    if alone.get(i).and_then(|a| a.as_ref()) != Some(title) {
+                        cx.fail("C06:hit-differs-from-single-record-store", || json!({"lang": l.tag(), "records": n, "limit": k, "query": q, "record": recs[i], "in_this_store": title, "in_a_store_of_its_own": alone[i]}));
+                        break;
+                    }
+                }
+                if n <= 10 * k {
+                    let want: Vec<(usize, String)> = unlimited.iter().take(k).cloned().collect();
+                    if hits != want {
+                        let first = hits.iter().zip(want.iter()).position(|(a, b)| a != b);
+                        cx.fail("C06:not-the-first-limit-entries-of-the-unlimited-list", || {
+                            json!({"lang": l.tag(), "store": format!("{} records '{} i' / '{} {} i' / '{}i' (ratings distinct)", n, w1, w2, w1, w1), "limit": k, "query": q, "first_difference_at": first, "observed_len": hits.len(), "expected_len": want.len(),
+                                   "observed_head": hits.iter().take(5).collect::<Vec<_>>(), "expected_head": want.iter().take(5).collect::<Vec<_>>()})
+                        });
+                    }
+                }
+                if !hits.is_empty() && hits.len() < unlimited.len() {
+                    cx.nontrivial();
+                }
+                cx.class(if hits.is_empty() { "big:no-hit" } else if hits.len() < unlimited.len() { "big:truncated" } else { "big:all-hits-fit" });
+            }
+        }
     }
 }
 
 impl Prop for C06 {
     fn doms(&self) -> Vec<Dom> {
-        self.sets.iter().map(|s| Dom::new(format!("{}/{}", s.l.tag(), s.name), seqs_len(s.menu.len() as u64, s.lo, s.hi), s.block)).collect()
+        let mut d: Vec<Dom> = self.sets.iter().map(|s| Dom::new(format!("{}/{}", s.l.tag(), s.name), seqs_len(s.menu.len() as u64, s.lo, s.hi), s.block)).collect();
+        d.push(Dom::new("big stores: 99 / 101 / 121 / 150 records sharing grams, limits 9..12, n/10, n/10+1, n, n+2", self.big.len() as u64, 1));
+        d
     }
     fn run(&self, dom: usize, idx: u64, cx: &mut Cx) {
+        if dom == self.sets.len() {
+            let (l, n) = self.big[idx as usize];
+            return self.run_big(l, n, cx);
+        }
         let set = &self.sets[dom];
         let l = set.l;
         let recs = store_at(set, idx);
@@ -227,7 +315,7 @@ impl Prop for C06 {
         vec![
             "reference executions are the real code too (one-record stores, unlimited store): a defect that affects every store size identically is invisible here and left to C03-C05/C08/C09".into(),
             "exact order is compared only on stores with pairwise distinct ratings; the tie domains check the order-free clauses".into(),
-            "stores of at most 12 records over the listed menus".into(),
+            "stores of at most 12 records over the listed menus, plus the four generated stores of 99-150 records".into(),
         ]
     }
 }
